@@ -6,7 +6,7 @@ use std::collections::BTreeMap;
 
 use midnight_circuits::parsing::{
     regex::{Regex, VerifRegexTree},
-    verif_hooks::Automaton,
+    verif_hooks::{verif_deserialize_automaton, verif_spec_library_data, Automaton},
 };
 use mzkh::{catch, Ctx};
 use rand::Rng;
@@ -223,11 +223,16 @@ struct Compiled {
 fn one_spec(ctx: &mut Ctx, s: &Spec, rng: &mut ChaCha8Rng, nwords: usize) -> Option<Compiled> {
     let mut tags = vec![];
     spec_tags(s, &mut tags);
+    let spec_s = spec_string(s);
+    if std::env::var("VERIF_C19_TRACE").is_ok() {
+        eprintln!("spec {spec_s}");
+    }
     let regex: Regex = match catch(|| build(s)) {
         Ok(r) => r,
         Err(msg) => {
             if msg.contains("markers are not allowed under complement") {
                 ctx.count("regex:build-refused-markers-under-neg");
+                ctx.case("tree-refused", true, &format!("tree {spec_s}"), "panic:neg-markers");
             } else {
                 ctx.oracle_fail(
                     &format!("regex-build-panic:{}", spec_string(s)),
@@ -245,16 +250,61 @@ fn one_spec(ctx: &mut Ctx, s: &Spec, rng: &mut ChaCha8Rng, nwords: usize) -> Opt
         return None;
     }
     let tree_s = tree_string(&tree);
-    let automaton: Automaton = match catch(|| regex.to_automaton()) {
+    // the tree built by the real combinators must be the transcription's tree
+    ctx.case("tree", spec_size(s) > 1, &format!("tree {spec_s}"), &tree_s);
+    // Is the language output-deterministic (reference verdict; `None` = too large to tell)?
+    let det = {
+        let rx = reference::from_tree(&tree);
+        let mut ms = vec![0usize];
+        reference::markers_of(&tree, &mut ms);
+        ms.sort();
+        let reps = reference::tree_byte_classes(&tree);
+        reference::output_deterministic(&rx, &reps, &ms, 400, 3000)
+    };
+    let compiled = catch(|| regex.to_automaton());
+    if det.is_some() {
+        let refused = matches!(&compiled, Err(m) if m.contains("non output-deterministic"));
+        let panicked = compiled.is_err() && !refused;
+        if !panicked {
+            ctx.case(
+                if refused { "detcheck-refused" } else { "detcheck-compiled" },
+                true,
+                &format!("detcheck {tree_s}"),
+                if refused { "nondet" } else { "det" },
+            );
+        }
+        if det == Some(true) && refused {
+            ctx.oracle_fail(
+                &format!("regex-refused-deterministic:{tree_s}"),
+                "Regex::to_automaton refuses an output-deterministic expression",
+                json!({"spec": spec_s, "tree": tree_s, "panic": compiled.as_ref().err()}),
+            );
+        }
+        if det == Some(false) && compiled.is_ok() {
+            ctx.oracle_fail(
+                &format!("regex-accepted-nondeterministic:{tree_s}"),
+                "Regex::to_automaton compiles an expression that is not output-deterministic",
+                json!({"spec": spec_s, "tree": tree_s}),
+            );
+        }
+    }
+    let automaton: Automaton = match compiled {
         Ok(a) => a,
         Err(msg) => {
             if msg.contains("non output-deterministic") {
                 ctx.count("regex:refused-non-output-deterministic");
+            } else if msg.contains("witness_reachability has been called on an unreachable state") {
+                // known finding: conflict detected in a dead part of the automaton
+                ctx.oracle_fail(
+                    "regex-compile-panic:witness-unreachable-state",
+                    "Regex::to_automaton panics with an internal '(bug)' message",
+                    json!({"spec": spec_s, "tree": tree_s, "panic": msg, "reference_deterministic": det}),
+                );
             } else {
                 ctx.oracle_fail(
                     &format!("regex-compile-panic:{}", tree_s),
                     "Regex::to_automaton panics",
-                    json!({"spec": spec_string(s), "tree": tree_s, "panic": msg}),
+                    json!({"spec": spec_s, "tree": tree_s, "panic": msg}),
                 );
             }
             return None;
@@ -398,6 +448,9 @@ fn one_spec(ctx: &mut Ctx, s: &Spec, rng: &mut ChaCha8Rng, nwords: usize) -> Opt
             ans,
         );
     }
+    if nontrivial && rng.gen_range(0..4) == 0 {
+        serialization_cases(ctx, &automaton, &tree_s, rng, 2);
+    }
     Some(Compiled {
         tree,
         tree_s,
@@ -469,7 +522,8 @@ fn fixed_specs() -> Vec<Spec> {
 }
 
 fn run_regex(ctx: &mut Ctx) {
-    let mut rng = ctx.rng("regex");
+    let mut rng = ctx.rng("regex-gen");
+    let mut wrng = ctx.rng("regex-words");
     let n_random = if ctx.quick() {
         250
     } else if ctx.thorough() {
@@ -478,23 +532,252 @@ fn run_regex(ctx: &mut Ctx) {
         600
     };
     let nwords = if ctx.quick() { 4 } else { 8 };
+    let only: Option<usize> = std::env::var("VERIF_C19_ONLY").ok().and_then(|x| x.parse().ok());
     for s in fixed_specs() {
+        if only.is_some() {
+            break;
+        }
         ctx.count("regex:fixed");
-        one_spec(ctx, &s, &mut rng, nwords);
+        one_spec(ctx, &s, &mut wrng, nwords);
     }
     for i in 0..n_random {
         let depth = 1 + (i % 5);
         let s = gen(&mut rng, depth, true);
+        if only.map(|o| o != i).unwrap_or(false) {
+            continue;
+        }
         if spec_size(&s) > 60 {
             ctx.count("regex:skipped-spec-too-large");
             continue;
         }
-        one_spec(ctx, &s, &mut rng, nwords);
+        if std::env::var("VERIF_C19_TRACE").is_ok() {
+            eprintln!("index {i}");
+        }
+        one_spec(ctx, &s, &mut wrng, nwords);
+    }
+}
+
+// ---------------------------------------------------------------------------------------------
+// Serialization and the shipped parsing library
+// ---------------------------------------------------------------------------------------------
+
+/// Mirror of the (test-only) `Automaton::serialize` of `serialization.rs`.
+fn serialize_automaton(a: &Automaton) -> Vec<u8> {
+    let mut buf = vec![];
+    let u = |buf: &mut Vec<u8>, x: usize| buf.extend((x as u64).to_le_bytes());
+    u(&mut buf, a.nb_states);
+    u(&mut buf, a.initial_state);
+    let mut finals: Vec<usize> = a.final_states.iter().copied().collect();
+    finals.sort();
+    u(&mut buf, finals.len());
+    finals.iter().for_each(|f| u(&mut buf, *f));
+    let mut tr: Vec<((usize, u8), (usize, usize))> =
+        a.transitions.iter().map(|(k, v)| (*k, *v)).collect();
+    tr.sort_by_key(|e| e.0);
+    u(&mut buf, tr.len());
+    for ((s, b), (t, m)) in tr {
+        u(&mut buf, s);
+        buf.push(b);
+        u(&mut buf, t);
+        u(&mut buf, m);
+    }
+    buf
+}
+
+fn hex(b: &[u8]) -> String {
+    if b.is_empty() {
+        "-".into()
+    } else {
+        b.iter().map(|x| format!("{x:02x}")).collect()
+    }
+}
+
+fn same_automaton(a: &Automaton, b: &Automaton) -> bool {
+    a.nb_states == b.nb_states
+        && a.initial_state == b.initial_state
+        && a.final_states == b.final_states
+        && a.transitions == b.transitions
+}
+
+/// Round trip through the REAL deserializer, byte-level comparison with the Lean model of the
+/// format, and rejection of truncated buffers.
+fn serialization_cases(ctx: &mut Ctx, a: &Automaton, label: &str, rng: &mut ChaCha8Rng, ntrunc: usize) {
+    let bytes = serialize_automaton(a);
+    let text = dfa_text(a);
+    ctx.case("serial", a.nb_states > 1, &format!("serial {text}"), &hex(&bytes));
+    match catch(|| verif_deserialize_automaton(&bytes)) {
+        Ok(Ok((back, rest))) => {
+            ctx.case(
+                "deser",
+                a.nb_states > 1,
+                &format!("deser {}", hex(&bytes)),
+                &format!("ok {} rest={rest}", dfa_text(&back)),
+            );
+            if !same_automaton(a, &back) || rest != 0 {
+                ctx.oracle_fail(
+                    &format!("serialization-roundtrip:{label}"),
+                    "an automaton does not survive the serialization round trip",
+                    json!({"automaton": text, "bytes": hex(&bytes), "back": dfa_text(&back), "rest": rest}),
+                );
+            }
+        }
+        other => ctx.oracle_fail(
+            &format!("serialization-roundtrip:{label}"),
+            "the deserializer rejects (or panics on) a serialized automaton",
+            json!({"automaton": text, "bytes": hex(&bytes), "result": format!("{:?}", other.map(|r| r.map(|x| x.1)))}),
+        ),
+    }
+    // with trailing bytes: the rest is reported, the automaton is the same
+    let mut longer = bytes.clone();
+    longer.extend([1u8, 2, 3]);
+    if let Ok(Ok((back, rest))) = catch(|| verif_deserialize_automaton(&longer)) {
+        ctx.case(
+            "deser-trailing",
+            true,
+            &format!("deser {}", hex(&longer)),
+            &format!("ok {} rest={rest}", dfa_text(&back)),
+        );
+    }
+    // truncations: always an error
+    for _ in 0..ntrunc {
+        let cut = rng.gen_range(0..bytes.len());
+        let r = catch(|| verif_deserialize_automaton(&bytes[..cut]));
+        let ans = match &r {
+            Ok(Ok(_)) => "ok".to_string(),
+            Ok(Err(_)) => "error".to_string(),
+            Err(p) => format!("panic {p}"),
+        };
+        if ans != "error" {
+            ctx.oracle_fail(
+                &format!("serialization-truncated:{label}:{cut}"),
+                "a truncated serialized automaton is not rejected with an error",
+                json!({"bytes": hex(&bytes[..cut]), "result": ans}),
+            );
+        }
+        if cut <= 4000 {
+            ctx.case("deser-truncated", true, &format!("deser {}", hex(&bytes[..cut])), &ans);
+        }
+    }
+}
+
+/// Shipped serialized automata: equal (for all words) to the fresh compilation of their
+/// specification; canonical bytes; `spec_library()` returns what the bytes say.
+fn run_library(ctx: &mut Ctx) {
+    let mut rng = ctx.rng("library");
+    let lib = midnight_circuits::parsing::spec_library();
+    for (name, spec, bytes) in verif_spec_library_data() {
+        ctx.count("library:entries");
+        let (shipped, rest) = match catch(|| verif_deserialize_automaton(bytes)) {
+            Ok(Ok(x)) => x,
+            other => {
+                ctx.oracle_fail(
+                    &format!("library-deserialize:{name}"),
+                    "a shipped serialized automaton cannot be deserialized",
+                    json!({"name": name, "result": format!("{:?}", other.map(|r| r.map(|x| x.1)))}),
+                );
+                continue;
+            }
+        };
+        let public = lib.iter().find(|(k, _)| format!("{:?}", k) == name).map(|(_, v)| v);
+        if rest != 0 || public.map(|p| !same_automaton(p, &shipped)).unwrap_or(true) {
+            ctx.oracle_fail(
+                &format!("library-load:{name}"),
+                "spec_library() does not return the automaton encoded by the shipped bytes",
+                json!({"name": name, "rest": rest}),
+            );
+        }
+        let t0 = std::time::Instant::now();
+        let fresh = match catch(|| spec.to_automaton()) {
+            Ok(a) => a,
+            Err(p) => {
+                ctx.oracle_fail(
+                    &format!("library-compile:{name}"),
+                    "the specification of a shipped automaton does not compile",
+                    json!({"name": name, "panic": p}),
+                );
+                continue;
+            }
+        };
+        ctx.set_extra(
+            &format!("library:{name}"),
+            json!({"states": shipped.nb_states, "transitions": shipped.transitions.len(),
+                   "bytes": bytes.len(), "fresh_states": fresh.nb_states,
+                   "compile_ms_bucket": if t0.elapsed().as_millis() < 60000 { "<60s" } else { ">=60s" }}),
+        );
+        // (ii) shipped = compilation of the specification, for all words
+        ctx.case(
+            "bisim-shipped-fresh",
+            true,
+            &format!("bisim {} | {}", dfa_text(&shipped), dfa_text(&fresh)),
+            "equiv",
+        );
+        if !same_automaton(&shipped, &fresh) {
+            ctx.count("library:shipped-not-identical-to-fresh");
+            // not identical: look for a concrete word on which they differ
+            for _ in 0..2000 {
+                for a in [&shipped, &fresh] {
+                    if let Some(w) = sample_accepted(a, &mut rng, 300) {
+                        if accepts(&shipped, &w) != accepts(&fresh, &w) {
+                            ctx.oracle_fail(
+                                &format!("library-shipped-vs-spec:{name}"),
+                                "a shipped automaton differs from the compilation of its specification",
+                                json!({"name": name, "word": w, "shipped": accepts(&shipped, &w), "fresh": accepts(&fresh, &w)}),
+                            );
+                        }
+                    }
+                }
+            }
+        } else {
+            ctx.count("library:shipped-identical-to-fresh");
+        }
+        // canonical bytes and round trip
+        let again = serialize_automaton(&shipped);
+        if again != bytes {
+            ctx.oracle_fail(
+                &format!("library-bytes-canonical:{name}"),
+                "re-serializing a shipped automaton does not give the shipped bytes",
+                json!({"name": name, "len": bytes.len(), "again_len": again.len()}),
+            );
+        }
+        serialization_cases(ctx, &shipped, &format!("library:{name}"), &mut rng, if ctx.quick() { 6 } else { 40 });
+        // (i) shipped automaton against the specification itself, all words
+        let tree = spec.verif_dump();
+        ctx.set_extra(&format!("library:{name}:spec-tree-size"), json!(tree_size(&tree)));
+        if !ctx.quick() {
+            ctx.case(
+                "equiv-shipped-spec",
+                true,
+                &format!("equiv {} | {}", tree_string(&tree), dfa_text(&shipped)),
+                "equiv",
+            );
+        }
+        // sampled words of the shipped automaton against the specification
+        let rx = reference::from_tree(&tree);
+        let n = if ctx.quick() { 10 } else { 60 };
+        for _ in 0..n {
+            if let Some(w) = sample_accepted(&shipped, &mut rng, 600) {
+                let ms = accepts(&shipped, &w).unwrap();
+                ctx.case(
+                    "match-shipped",
+                    true,
+                    &format!("match {} | {}", tree_string(&tree), word_text(&w, &ms)),
+                    "1",
+                );
+                if !reference::matches(&rx, &w, &ms) {
+                    ctx.oracle_fail(
+                        &format!("library-shipped-vs-spec:{name}"),
+                        "a shipped automaton accepts a word that its specification rejects",
+                        json!({"name": name, "word": w, "markers": ms}),
+                    );
+                }
+            }
+        }
     }
 }
 
 fn main() {
     let mut ctx = Ctx::from_args("C19");
     run_regex(&mut ctx);
+    run_library(&mut ctx);
     ctx.finish();
 }
